@@ -201,27 +201,18 @@ class UnusedTranslator:
                 if passed.setdefault(head_arg, new_arg) != new_arg:
                     return None
 
-            def replace(input_: AST, old: AST, new: AST) -> AST:
-                if input_ == old:
-                    return new
-                return input_
+            # all head arguments are replaced at the same time, the remaining variables of the copied atom were local
+            subst: dict[AST, AST] = dict(zip(self.arguments, arguments))
+            local = [v for v in collect_ast(self.symbol, "Variable") if v not in subst and v.name != "_"]
+            if len(local) != len(set(local)):
+                return None  # a repeated local variable b(X,Z,Z) can not become anonymous
 
-            args = deepcopy(list(self.symbol.arguments))
-            for index, _ in enumerate(args):
-                for head_arg, new_arg in zip(self.arguments, arguments):
-                    args[index] = transform_ast(args[index], "Variable", partial(replace, old=head_arg, new=new_arg))
+            def replace(input_: AST) -> AST:
+                if input_ in subst:
+                    return subst[input_]
+                return Variable(LOC, "_")
 
-            old_vars: set[AST] = set()
-            for arg in arguments:
-                old_vars.update(collect_ast(arg, "Variable"))
-
-            def replace_rest(input_: AST, old_vars: set[AST]) -> AST:
-                if input_ not in old_vars:
-                    return Variable(LOC, "_")
-                return input_
-
-            for index, arg in enumerate(args):
-                args[index] = transform_ast(arg, "Variable", partial(replace_rest, old_vars=old_vars))
+            args = [transform_ast(arg, "Variable", replace) for arg in deepcopy(list(self.symbol.arguments))]
             return SymbolicAtom(Function(LOC, self.symbol.name, args, False))
 
     def remove_single_copies(self, prg: list[AST]) -> list[AST]:
